@@ -64,7 +64,9 @@ Record client_code := {
   g_err_threshold : Z;          (* func_code < <this> : not an error *)
   g_tcp_hsize : Z;              (* ModbusSocketFramer._hsize *)
   g_caught : list pyexn;        (* except (...) in _transact; socket.error = OtherExc *)
-  g_rtu_tid_is_unit : bool      (* rtu buildPacket: message.transaction_id = message.unit_id *)
+  g_rtu_tid_is_unit : bool;     (* rtu buildPacket: message.transaction_id = message.unit_id *)
+  g_is_error_rsp : expr;        (* pdu.ModbusResponse.isError over the atom "self.function_code" *)
+  g_is_error_exc : bool         (* exceptions.ModbusException.isError (inherited by ModbusIOException) *)
 }.
 
 (* ------------------------------------------------------------------ data *)
@@ -471,6 +473,15 @@ Definition execute (c : cfg) (st : cstate FS) (rq : req) (script : list tev) : c
             end
         end
     end.
+
+(* result.isError() of what execute returned (None: not an object with isError) *)
+Definition is_error_fc (fc : Z) : bool := z2b (eval (env_of [("self.function_code", fc)]) (g_is_error_rsp C)).
+Definition is_error_of (r : result) : option bool :=
+  match r with
+  | RReply m => Some (is_error_fc (m_fc m))
+  | RErr _ => Some (g_is_error_exc C)
+  | _ => None
+  end.
 
 Definition sent (o : outcome) : list bytes :=
   flat_map (fun c => match c with CSend p => [p] | _ => [] end) (o_calls o).
